@@ -6,7 +6,7 @@
 //	OBS <res>/<inner calls>;…|inner=<topic>[<id>:<for>:<until>:<other>,…];…|gen=<id>,…|probe=<ok>/<err>/<empty>/<repub>|metrics=…|closes=<n>
 //	REQ sub <stack> <subErr> <closeErr> <n> <script> <reads> @ inner=<hex>
 //	OBS sub=<res>|recv=<id>:<path>:<same object>:<inner settlement>,…|A=<metrics>|close=<res>/<inner closes>|chan=<closed>|B=<metrics>
-//	REQ rt <kp> <ks> <script> <outcomes> @ pub=<hex> sub=<hex>
+//	REQ rt <kp> <ks> <km> <script> <outcomes> @ pub=<hex> sub=<hex>
 //	OBS settle=<a|n…>|pub=<res>:<n msgs>;…|inv=<n>|metrics=…|close=ok
 //
 // stack: layers outermost first, T<tag> transform, M metrics, D<allowNoDelay><generator> delay.
@@ -333,6 +333,7 @@ func genSub(out *wh.Out, a wh.Args, rng *wh.Rng) {
 func statRt(out *wh.Out, c rtCase, obs string) {
 	out.Count("rt.pub_decorated_x" + wh.Itoa(c.kp))
 	out.Count("rt.sub_decorated_x" + wh.Itoa(c.ks))
+	out.Count("rt.middleware_x" + wh.Itoa(c.km))
 	for _, o := range c.outcomes {
 		switch o[0] {
 		case 's':
@@ -352,7 +353,7 @@ func genRt(out *wh.Out, a wh.Args, rng *wh.Rng) {
 			if overBudget(out) {
 				return
 			}
-			c := rtCase{kp: kp, ks: ks, script: []bool{false, true, false}, outcomes: []string{"s0", "s1", "e", "p", "s2", "s1"}}
+			c := rtCase{kp: kp, ks: ks, km: 1, script: []bool{false, true, false}, outcomes: []string{"s0", "s1", "e", "p", "s2", "s1"}}
 			req, obs := runRt(c)
 			out.Case(req, obs)
 			statRt(out, c, obs)
@@ -363,7 +364,10 @@ func genRt(out *wh.Out, a wh.Args, rng *wh.Rng) {
 		n = 3000
 	}
 	for i := 0; i < n && !overBudget(out); i++ {
-		c := rtCase{kp: rng.Intn(4), ks: rng.Intn(4)}
+		c := rtCase{kp: rng.Intn(4), ks: rng.Intn(4), km: 1}
+		if rng.Intn(8) == 0 {
+			c.km = 2 * rng.Intn(2) // middleware twice / not at all: outside the property's quantifier, model conformance only
+		}
 		for j, k := 0, rng.Intn(6); j < k; j++ {
 			switch rng.Intn(6) {
 			case 0:
@@ -399,7 +403,7 @@ func replay(out *wh.Out, line string) {
 		out.Case(runPub(parsePub(f)))
 	case len(f) == 7 && f[0] == "sub":
 		out.Case(runSub(parseSub(f)))
-	case len(f) == 5 && f[0] == "rt":
+	case len(f) == 6 && f[0] == "rt":
 		out.Case(runRt(parseRt(f)))
 	default:
 		fmt.Fprintln(os.Stderr, "unknown request")
